@@ -134,6 +134,10 @@ fn run(ax: &mut Axecutor, inp: &Inputs) -> (String, [bool; 16], [bool; 16], u64)
         if ins.mnemonic() == iced_x86::Mnemonic::Syscall {
             writes.clear();
         }
+        // a failed step defines nothing
+        if !r.is_ok() {
+            writes.clear();
+        }
         for (r, _) in writes {
             if let Some(i) = gpr_index(r) {
                 def[i] = true;
@@ -194,7 +198,7 @@ fn observable(ax: &mut Axecutor, result: &str, def: &[bool; 16], xdef: &[bool; 1
 
 impl Monitor for C20 {
     fn total_cases(&self) -> u64 {
-        REPLICAS * self.tier.pick(1_500, 150_000)
+        REPLICAS * self.tier.pick(15_000, 400_000)
     }
 
     fn run_case(&mut self, k: u64, _rng: &mut Rng, col: &mut Collector) {
